@@ -20,6 +20,7 @@ type CircuitOpts struct {
 	MaxOutW  int  // max width of one output (default 17)
 	MaxGates int  // extra gates beyond the outputs (default 400)
 	WideLast int  // if > 0: one case in five gives the last party 513..WideLast input bits (several OT-extension chunks)
+	WideAny  int  // if > 0: one case in six gives every party 400..WideAny input bits (more than a thousand input wires in all)
 	GMW      bool // only XOR/XNOR/AND/INV
 	// ZeroWidth: one case in ten gives one party (not all) a 0-bit argument
 	// ([0]byte, or an unsized argument instantiated with nothing).
@@ -59,7 +60,17 @@ func Circuit(t *rt.Tape, o CircuitOpts) *circuit.Circuit {
 	if o.ZeroWidth && t.Choose(rt.SGen, 10) == 0 {
 		zero = t.Choose(rt.SGen, o.Parties)
 	}
+	wideAll := o.WideAny > 400 && t.Choose(rt.SGen, 6) == 0
 	for p := 0; p < o.Parties; p++ {
+		if wideAll {
+			bits := 400 + t.Choose(rt.SGen, o.WideAny-400)
+			if t.Choose(rt.SGen, 3) == 0 {
+				bits = []int{512, 1024, 768}[t.Choose(rt.SGen, 3)]
+			}
+			c.Inputs = append(c.Inputs, circuit.IOArg{Name: fmt.Sprintf("in%d", p), Type: uintType(bits)})
+			nin += bits
+			continue
+		}
 		if p == zero {
 			c.Inputs = append(c.Inputs, circuit.IOArg{Name: fmt.Sprintf("in%d", p), Type: uintType(0)})
 			continue
